@@ -47,6 +47,16 @@ def run(ctx):
     asarray = ctx.repo.func('array.asarray')
     asragged = ctx.repo.func('raggedarray.asraggedarray')
     gen = ctx.repo.func('array._archunkgenerator')
+    # the replica's metadata are the source's metadata as they are on disk when copy() runs: the metadata reader
+    # keeps no parsed content in the handle (shared with C13 D1) — with such a cache a copy made through a handle
+    # that read its metadata earlier carries what another handle has replaced since
+    from .C13 import d1_no_cache
+    mc = ctx.repo.cls('MetaData')
+    rd = [g for g in mc.all_funcs() if any(isinstance(n, ast.Call) and dotted(n.func) in ('json.load', 'json.loads')
+                                           for n in own_nodes(g.node))]
+    if not rd:
+        raise AnalysisError('MetaData file reader not found')
+    d1_no_cache(ctx, mc, rd[-1], clause='D4', only_cache=True)
     # D1
     f = A.methods['copy']
     calls = [n for n, cal in ctx.E.callees(f) if cal is asarray and isinstance(n, ast.Call)]
